@@ -1,0 +1,10 @@
+//go:build !verif
+
+package spine
+
+import "github.com/enbility/spine-go/model"
+
+// verifApprovalTimer marks the start (phase 0) and the end (phase 1) of the body of a
+// write-approval timer for the verification harness; without the build tag `verif` it
+// is a no-op.
+func verifApprovalTimer(int, string, model.MsgCounterType) {}
